@@ -518,7 +518,7 @@ CaseResult run_seg(const RunCtx &ctx, TapeReader &t, unsigned size_hint) {
     if (eps <= 4) res.label("eps_le4");
     if (meta.has_dup) res.label("dups");
     if (nested) res.label("called_inside_parallel_region");
-    if (meta.excluded_known) res.label("excluded_known_KF1_double_steep_capped");
+    if (meta.excluded_known) res.label("excluded_known_shape");
 
     uint64_t ops = 0, cross_checked = 0, npoints = 0, nsegs = 0;
     long double worst_excess = -1e9L;
